@@ -40,6 +40,12 @@ CLAIMED["C10"] = ("other",
     "Assumes strconv decimal rendering is digits only for non-negative numbers; counter does not wrap; uniqueness across restarts not decided.",
     "DESIGN.md §4 C10")
 
+CLAIMED["C11"] = ("other",
+    "nil-guard analysis over access paths of the request model, length-fact/dominance analysis of every index and slice site, call-graph reachability of abort calls, lockset-based no-wedge rule with a may-panic classifier (all on go/ssa)",
+    "Decides, for every request body and path parameter at once: no dereference of an optional request member without a dominating non-nil test of the same access path; every index/slice site on the request path of the API, processor and conversion packages is in range (dominating length test, range loop, array bound, Split lemma, or the checked subscriber-pool prefix invariant); no panic/Fatal/os.Exit call site reachable from a route handler; every Lock in request code is followed by its deferred Unlock before any instruction that may panic (or the section cannot panic), so a recovered panic cannot leave a subscriber locked; every problem status is a 4xx constant. Promptness/timing of the follow-up request is not decided.",
+    "Library internals (gin, openapi.Deserialize, go-diameter, mongo) are trusted not to panic; members of peer answers are outside the quantifier; BER codec and file encoder panics are the subject of C04/C16/C03.",
+    "DESIGN.md §4 C11")
+
 # id -> reason, for properties not (yet) claimed
 NOT_APPLICABLE = {
 }
